@@ -65,6 +65,7 @@ import (
 type codecStats struct {
 	Cases, DistinctNontrivial                                         int
 	WellFormed, Created, Direct, Manifests, LinkKey, LinkEntries      int
+	StaleTemplates                                                   int
 	Malformed, MalInputs, MalRandom, MalTruncated, MalStructured      int
 	MalManifest, MalV0, MalDecodedOK, MalErr, Panics                  int
 	StructValidCbor, Poison, PoisonLoads, Vectors, CrossProcess       int
@@ -720,6 +721,7 @@ func (w *codecWorld) runLinkKey(h int, r *rand.Rand) {
 	fmt.Fprintf(w.out, "K %s %s\n", codecHx0(k1b), codecHx0(k2b))
 	ident := w.idents[r.Intn(len(w.idents))]
 	var prev []cid.Cid
+	var lastCreated iface.IPFSLogEntry
 	n := 3 + r.Intn(4)
 	for k := 0; k < n; k++ {
 		next := pool.links(r, w.st)
@@ -733,7 +735,25 @@ func (w *codecWorld) runLinkKey(h int, r *rand.Rand) {
 		}
 		in := &entry.Entry{LogID: "L" + strconv.Itoa(r.Intn(3)), Payload: randBytes(r, genLen(r, false)), Next: next, Refs: refs,
 			Clock: entry.NewLamportClock(ident.PublicKey, r.Intn(100))}
+		if lastCreated != nil && len(next)+len(refs) > 0 && r.Intn(3) == 0 {
+			// the template is an amended copy of an entry created before: it still carries that entry's
+			// encrypted-link additional data (both values, or only one of them)
+			c := lastCreated.Copy().(*entry.Entry)
+			c.LogID, c.Payload, c.Next, c.Refs, c.Clock = in.LogID, in.Payload, in.Next, in.Refs, in.Clock
+			c.Sig, c.Key, c.Identity, c.Hash = nil, nil, nil, cid.Undef
+			switch r.Intn(3) {
+			case 0:
+				delete(c.AdditionalData, iface.KeyEncryptedLinksNonce)
+			case 1:
+				delete(c.AdditionalData, iface.KeyEncryptedLinks)
+			}
+			in = c
+			w.st.StaleTemplates++
+		}
 		e, err := entry.CreateEntryWithIO(w.ctx, api, ident, in, nil, io1)
+		if err == nil {
+			lastCreated = e
+		}
 		if err != nil {
 			fmt.Fprintf(w.out, "W err - -\n")
 			continue
@@ -1180,7 +1200,47 @@ func (w *codecWorld) genStructured(r *rand.Rand, pool *cidPool) ([]byte, []strin
 			return base64.StdEncoding.EncodeToString(randBytes(r, n))
 		}
 	}
-	if r.Intn(3) == 0 {
+	if r.Intn(5) == 0 {
+		// a payload that really authenticates under the reader's link key (written by a key holder, or
+		// by anyone when the key leaks) but whose plaintext is hostile
+		kinds = append(kinds, "enc-sealed")
+		p := &cw{}
+		tag42 := func(b []byte) {
+			p.head(6, 42)
+			p.bytes(b)
+		}
+		field := []string{"next", "refs"}[r.Intn(2)]
+		p.head(5, 1)
+		p.text(field)
+		switch r.Intn(7) {
+		case 0:
+			p.head(4, 1)
+			tag42(nil) // an empty link
+		case 1:
+			p.head(4, 1)
+			tag42([]byte{0}) // only the multibase prefix
+		case 2:
+			p.head(4, 1)
+			tag42(append([]byte{1}, randBytes(r, 10)...)) // wrong multibase prefix
+		case 3:
+			p.head(4, 2)
+			tag42(append([]byte{0}, randBytes(r, 5)...)) // garbage cid
+			tag42(nil)
+		case 4:
+			p.text("not an array")
+		case 5:
+			p.head(4, 1)
+			p.bytes(nil) // untagged empty bytes where a link is expected
+		default:
+			p.b = append(p.b, randBytes(r, 1+r.Intn(12))...)
+		}
+		k, _ := enc.NewSecretbox(make([]byte, 32))
+		nonce := randBytes(r, 24)
+		if ct, err := k.SealWithNonce(p.b, nonce); err == nil {
+			add("enc_links", func(c *cw) { c.text(base64.StdEncoding.EncodeToString(ct)) })
+			add("enc_links_nonce", func(c *cw) { c.text(base64.StdEncoding.EncodeToString(nonce)) })
+		}
+	} else if r.Intn(3) == 0 {
 		kinds = append(kinds, "enc")
 		add("enc_links", func(c *cw) { c.text(encText()) })
 		if r.Intn(4) != 0 {
